@@ -531,8 +531,13 @@ func runC19(r *Runner, g *Gen, tier string) string {
 	for _, n := range []int{63, 64, 65, 255, 256, 257, 1023, 1025, scale(tier, 6000, 20000)} {
 		r.Do(L(A("internmany"), A(fmt.Sprint(n))), true, "internmany")
 	}
-	// concurrent: 2-3 goroutines share one interned field; deterministic schedules over the intern yield points
-	m := scale(tier, 600, 40000)
+	internSchedOps(r, g, scale(tier, 600, 40000))
+	return "histories of 1-10 decodes through one freshly built interned string field (string and null.String): new, repeated, empty, prefix-sharing and binary inputs, the caller's buffer overwritten after every call and all results re-read at the end; compared with the model: the decoded strings and the sharing structure (which results are the same allocation); oracle: each result equals the input bytes (= what the plain codec returns)"
+}
+
+// internSchedOps: 2-3 goroutines share one interned field; deterministic schedules over the intern yield points
+func internSchedOps(r *Runner, g *Gen, m int) {
+	pool := [][]byte{[]byte("a"), []byte("ab"), []byte("abc"), []byte("b"), nil}
 	for i := 0; i < m; i++ {
 		nt := 2 + g.r.Intn(2)
 		reqs := []*Sexp{A("reqs")}
@@ -561,7 +566,6 @@ func runC19(r *Runner, g *Gen, tier string) string {
 		r.Do(sop, true, "internsched")
 		r.Do(makeInternTraceOp(sop), true, "interntrace")
 	}
-	return "histories of 1-10 decodes through one freshly built interned string field (string and null.String): new, repeated, empty, prefix-sharing and binary inputs, the caller's buffer overwritten after every call and all results re-read at the end; compared with the model: the decoded strings and the sharing structure (which results are the same allocation); oracle: each result equals the input bytes (= what the plain codec returns)"
 }
 
 
